@@ -147,3 +147,40 @@ func PinnedUnsafePointer(name string) *Case {
 	c.Feature("leaf", "unsafe.Pointer")
 	return c
 }
+
+// PinnedPointerDrop: *T -> T (useZeroValueOnPointerInconsistency) at every container position for basic, named basic
+// and struct pointees: a nil pointer becomes the zero value, the entry / element count is preserved.
+func PinnedPointerDrop(name string) *Case {
+	c := &Case{Name: name, Root: "vcase/" + name}
+	src := &Package{Path: "src", Name: "src"}
+	tgt := &Package{Path: "tgt", Name: "tgt"}
+	conv := &Package{Path: "conv", Name: "conv"}
+	nbS := &Decl{Pkg: src, Name: "NB", Under: Basic("int32")}
+	nbT := &Decl{Pkg: tgt, Name: "NB", Under: Basic("int32")}
+	inS := &Decl{Pkg: src, Name: "Item", Under: Struct(F("V", Basic("int")), F("P", Ptr(Basic("string"))))}
+	inT := &Decl{Pkg: tgt, Name: "Item", Under: Struct(F("V", Basic("int")), F("P", Basic("string")))}
+	s := &Decl{Pkg: src, Name: "In", Under: Struct(
+		F("F", Ptr(Basic("int"))), F("L", Slice(Ptr(Basic("string")))), F("M", Map(Basic("string"), Ptr(Basic("uint64")))),
+		F("MN", Map(Basic("int"), Ptr(Named(nbS)))), F("LN", Slice(Ptr(Named(nbS)))), F("MS", Map(Basic("string"), Ptr(Named(inS)))),
+		F("LS", Slice(Ptr(Named(inS)))), F("MM", Map(Basic("string"), Map(Basic("string"), Ptr(Basic("bool"))))), F("PP", Ptr(Ptr(Basic("int")))))}
+	t := &Decl{Pkg: tgt, Name: "Out", Under: Struct(
+		F("F", Basic("int")), F("L", Slice(Basic("string"))), F("M", Map(Basic("string"), Basic("uint64"))),
+		F("MN", Map(Basic("int"), Named(nbT))), F("LN", Slice(Named(nbT))), F("MS", Map(Basic("string"), Named(inT))),
+		F("LS", Slice(Named(inT))), F("MM", Map(Basic("string"), Map(Basic("string"), Basic("bool")))), F("PP", Ptr(Basic("int"))))}
+	src.Decls = []*Decl{nbS, inS, s}
+	tgt.Decls = []*Decl{nbT, inT, t}
+	c.Pkgs = []*Package{src, tgt, conv}
+	cv := simpleConv(conv, "Converter", "struct", []string{"useZeroValueOnPointerInconsistency"},
+		method1("M0", Named(s), Named(t)),
+		method1("M1", Map(Basic("string"), Ptr(Basic("int"))), Map(Basic("string"), Basic("int"))),
+		method1("M2", Slice(Ptr(Named(nbS))), Slice(Named(nbT))))
+	for _, m := range cv.Methods {
+		m.Spec.Flags.UseZero = true
+	}
+	cv.Spec = &vref.Spec{Seed: 1, NValues: 40, Monitors: []string{"value", "intact"}, Conv: vref.Flags{UseZero: true}}
+	c.Convs = []*Converter{cv}
+	c.Patterns = []string{"./conv"}
+	c.Feature("tag", "pinned")
+	c.Feature("usezero", "true")
+	return c
+}
